@@ -80,18 +80,19 @@ class SigmaValidator:
             raise SigmaConfigurationError(f"Unknown validator '{ e.args[0] }'")
 
         # Build exclusion dict
+        # The same rule id can appear in different spellings: the exclusions of all its entries are
+        # merged.
         try:
-            exclusions = {
-                (UUID(rule_id) if rule_id is not None else None): {
+            exclusions: dict[UUID | None, set[Type[SigmaRuleValidator]]] = defaultdict(set)
+            for rule_id, rule_exclusions in d.get("exclusions", dict()).items():
+                exclusions[UUID(rule_id) if rule_id is not None else None].update(
                     validators[
                         exclusion_name
                     ]  # main purpose of the generators: resolve identifiers into classes
                     for exclusion_name in (
                         rule_exclusions if isinstance(rule_exclusions, list) else [rule_exclusions]
                     )
-                }
-                for rule_id, rule_exclusions in d.get("exclusions", dict()).items()
-            }
+                )
         except KeyError as e:
             raise SigmaConfigurationError(f"Unknown validator '{ e.args[0] }'")
 
